@@ -381,7 +381,7 @@ def gen_cases(rnd, tier):
     assigns = []
     for depth in (1, 2, 3):
         assigns += list(itertools.product(ASSIGN, repeat=depth))
-    reps = 4 if tier == "quick" else 24
+    reps = 4 if tier == "quick" else 20
     for r in range(reps):
         for asg in assigns:
             nest = 0 if r == 0 else rnd.choice([0, 1, 2, 2])
